@@ -43,7 +43,7 @@ PROBES = ["overloads_same_param_names", "optional_param_member", "class_missing_
           "xml_member_has_extra_optional_param", "overloads_with_permuted_param_names",
           "literals_crosschecked_with_gpp", "binding_after_fault_on_its_file", "text_longer_than_512", "decoy_class_with_similar_name",
           "decoy_member_with_similar_name", "param_documented_without_text", "param_item_without_name",
-          "section_ahead_of_return", "return_section_partial", "truncation_left_document_wellformed", "member_in_other_sectiondef", "xml_in_another_encoding", "lookup_without_a_literal", "constructor_documented_in_xml"]
+          "section_ahead_of_return", "return_section_partial", "truncation_left_document_wellformed", "member_in_other_sectiondef", "xml_in_another_encoding", "lookup_without_a_literal", "constructor_documented_in_xml", "same_class_name_in_two_namespaces"]
 
 
 def batches(tier):
@@ -292,9 +292,45 @@ def align_insertions(ref, act):
 # ---------------------------------------------------------------------------
 # scenario
 # ---------------------------------------------------------------------------
+def _ret_basic(m):
+    r = getattr(m, "ret", None)
+    if r is None:
+        return True
+    tys = [r.t1] + ([r.t2] if getattr(r, "t2", None) is not None else []) if hasattr(r, "t1") else []
+    return all(t.name in ("void", "int", "double", "bool", "size_t", "string", "char", "unsigned char", "float") and
+               t.targs is None for t in tys) if tys else False
+
+
 def gen_case(tape, batch):
     model, _, _ = G.generate(tape, "pybind", tag="QA", max_decls=5)
     n_ovl = B._add_overload_pairs(model, tape)
+    twin = None
+    if tape.bool(0.2, "twin-class"):
+        # the same class NAME in a second namespace, with the same method names and parameter names: told apart
+        # by the namespace only (each gets its own documentation below)
+        import copy
+        plain = [c for c in model.classes() if c.tmpl is None and c.parent is None and
+                 (c.of("method") or c.of("static"))]
+        if plain:
+            src_c = tape.pick(plain, "twin-of")
+            tns = G.Namespace(tape.pick(["twin", "other", "v2"], "twin-ns"), [])
+            twin = copy.deepcopy(src_c)
+            twin.ns = [tns.name]
+            twin.members = [m for m in twin.members if isinstance(m, G.Func) and m.tmpl is None and
+                            all(a.ty.name in G.BASIC or a.ty.name in ("string", "double") for a in m.args) and
+                            (m.kind == "ctor" or m.ret is None or True)]
+            # keep only members whose signatures do not mention other classes by unqualified name
+            def _self_contained(m):
+                tys = [a.ty for a in m.args]
+                return all(t.name in ("int", "double", "bool", "size_t", "string", "char", "unsigned char", "float")
+                           for t in tys)
+            twin.members = [m for m in twin.members if _self_contained(m) and
+                            (m.kind == "ctor" or _ret_basic(m))]
+            if twin.of("method") or twin.of("static"):
+                tns.content.append(twin)
+                model.content.append(tns)
+            else:
+                twin = None
     # a third same-named-parameter overload now and then
     for c in model.classes():
         for f in list(c.of("method")):
@@ -314,6 +350,8 @@ def gen_case(tape, batch):
     lex, _ = model.lexemes()
     text = G.render(lex, tape)
     case = {"text": text, "n_ovl": n_ovl, "probes": {}}
+    if twin is not None:
+        case["probes"]["same_class_name_in_two_namespaces"] = 1
     if n_perm:
         case["probes"]["overloads_with_permuted_param_names"] = 1
     pr = case["probes"]
